@@ -494,3 +494,15 @@ impl<VM: VMBinding> LargeObjectSpace<VM> {
 fn get_super_page(cell: Address) -> Address {
     cell.align_down(BYTES_IN_PAGE)
 }
+
+#[cfg(feature = "mmtk_verif")]
+impl<VM: VMBinding> LargeObjectSpace<VM> {
+    /// Verification hook: the private [`LargeObjectSpace::test_and_mark`].
+    pub fn verif_test_and_mark(&self, object: ObjectReference, value: u8) -> bool {
+        self.test_and_mark(object, value)
+    }
+    /// Verification hook: choose which mask `test_and_mark` uses (`prepare` sets this field).
+    pub fn verif_set_in_nursery_gc(&mut self, nursery: bool) {
+        self.in_nursery_gc = nursery;
+    }
+}
